@@ -774,7 +774,6 @@ fn run_mgr(out: &mut Out, seed: u64, c: u64, thorough: bool) {
 }
 
 // ---------- Cypher layer: the same queries with and without the hierarchy index ----------
-const KNOWN_LABEL: &str = "rewrite-ignores-measure-label";
 
 fn canon_rows(engine: &samyama::query::QueryEngine, store: &GraphStore, q: &str) -> String {
     match engine.execute(q, store) {
@@ -800,30 +799,6 @@ fn canon_rows(engine: &samyama::query::QueryEngine, store: &GraphStore, q: &str)
             rows.join(";")
         }
         Err(e) => format!("ERR {}", e.to_string().chars().take(60).collect::<String>()),
-    }
-}
-
-/// The stored witness of the known finding, replayed on the implementation every run.
-fn replay_known_label() -> KnownReplay {
-    let engine = samyama::query::QueryEngine::new();
-    let mut with = GraphStore::new();
-    let mut without = GraphStore::new();
-    for q in [
-        "CREATE (:C:M {code: 'a', units: 5})",
-        "CREATE (:C {code: 'b', units: 7})",
-        "MATCH (x:C {code: 'b'}), (y:C {code: 'a'}) CREATE (x)-[:IS_A]->(y)",
-    ] {
-        let _ = engine.execute_mut(q, &mut with, "default");
-        let _ = engine.execute_mut(q, &mut without, "default");
-    }
-    let _ = engine.execute_mut("CREATE HIERARCHY INDEX h ON ()-[:IS_A]->() MEASURE M.units AGGREGATE sum", &mut with, "default");
-    let q = "MATCH (d)-[:IS_A*0..]->(r:C {code: 'a'}) RETURN sum(d.units) AS v";
-    let a = canon_rows(&engine, &with, q);
-    let b = canon_rows(&engine, &without, q);
-    KnownReplay {
-        class: KNOWN_LABEL.to_string(),
-        still_fails: a != b,
-        detail: format!("(a:C:M units 5) <-IS_A- (b:C units 7); index MEASURE M.units; `{q}`: with the index [{a}], by expansion [{b}]"),
     }
 }
 
@@ -864,7 +839,6 @@ fn run_cypher(out: &mut Out, seed: u64, c: u64) {
         script.push(format!("MATCH (a:C {{code: 'n{ch}'}}), (b:C {{code: 'n{p}'}}) CREATE (a)-[:IS_A]->(b)"));
     }
     let mut bad: Option<String> = None;
-    let mut known_bad: Option<String> = None;
     let mut apply = |q: &str, with: &mut GraphStore, without: &mut GraphStore, bad: &mut Option<String>| {
         let a = engine.execute_mut(q, with, "default").map(|_| ()).map_err(|e| e.to_string());
         let b = engine.execute_mut(q, without, "default").map(|_| ()).map_err(|e| e.to_string());
@@ -892,7 +866,7 @@ fn run_cypher(out: &mut Out, seed: u64, c: u64) {
             format!("MATCH (r:C {{code: 'n{root}'}})<-[:IS_A*0..]-(d) RETURN sum(d.units) AS v"),
         ]
     };
-    let mut compare = |with: &GraphStore, without: &GraphStore, what: &str, bad: &mut Option<String>, known_bad: &mut Option<String>, out: &mut Out| {
+    let mut compare = |with: &GraphStore, without: &GraphStore, what: &str, bad: &mut Option<String>, out: &mut Out| {
         for root in 0..n {
             for q in queries(root) {
                 let fired = samyama::query::parse_query(&q)
@@ -907,20 +881,14 @@ fn run_cypher(out: &mut Out, seed: u64, c: u64) {
                 out.count("cypher_comparisons");
                 if a != b {
                     let msg = format!("after {what}: `{q}` with the index (rewrite fired: {fired}) = [{a}], by variable-length expansion = [{b}]");
-                    // known finding: the detector rewrites sum/min/max(d.units) onto an index whose measure is
-                    // restricted to a label, although the query aggregates over every descendant
-                    if restricted && fired && !q.contains("count(") && !q.contains("d.code") {
-                        if known_bad.is_none() {
-                            *known_bad = Some(msg);
-                        }
-                    } else if bad.is_none() {
+                    if bad.is_none() {
                         *bad = Some(msg);
                     }
                 }
             }
         }
     };
-    compare(&with, &without, "create index", &mut bad, &mut known_bad, out);
+    compare(&with, &without, "create index", &mut bad, out);
     let steps = r.range(2, 5);
     for _ in 0..steps {
         let q = match r.below(8) {
@@ -965,15 +933,12 @@ fn run_cypher(out: &mut Out, seed: u64, c: u64) {
         } else {
             apply(&q, &mut with, &mut without, &mut bad);
         }
-        compare(&with, &without, &q, &mut bad, &mut known_bad, out);
+        compare(&with, &without, &q, &mut bad, out);
     }
     out.count("cypher_histories");
     let i = out.case("CDirect 1 [] 0 (BOk 0) []".to_string(), human.clone(), true);
     if let Some(b) = bad {
         out.fail(i, &human, &b, None);
-    } else if let Some(b) = known_bad {
-        out.count("known_label_rewrite_cases");
-        out.fail(i, &human, &b, Some(KNOWN_LABEL));
     }
 }
 
@@ -1089,6 +1054,5 @@ fn main() {
     for k in 0..nc {
         run_cypher(&mut out, seed, k);
     }
-    out.known.push(replay_known_label());
     out.finish();
 }
